@@ -184,60 +184,9 @@ def names(R, ctx):
 def fresh(R, ctx):
     rid = "C09.fresh"
     lib = ctx.lib
-    R.rule(rid, "RenameProcessor::generate_identifier returns either a pooled name or a generated one on the true branch of filter_identifier; "
-                "filter_identifier refuses names in avoid_identifier and names starting with a digit; KEYWORDS lists the 21 reserved words and is added "
+    R.rule(rid, "(what a freshly generated name must avoid is decided in C09.pool: insert|generated-filtered) KEYWORDS lists the 21 reserved words and is added "
                 "to the avoid set; RenameVariables::flawless_process seeds the processor with globals + kept function names + collected globals and only "
                 "then runs the renaming walk")
-    fn = lib.fn("rules::rename_variables::rename_processor::RenameProcessor::generate_identifier")
-    if R.require(rid, "anchor:generate_identifier", fn is not None, "", "not found"):
-        fa = ctx.an.fa(fn["path"])
-        M = guards.Mentions(ctx.an)
-        # every variable returned: bound from reuse_identifiers.pop() or guarded by filter_identifier
-        body = thir.body_of(fn)
-        rets = []
-
-        def tails(e):
-            k = e.get("k")
-            if k == "Block":
-                if "tail" in e:
-                    tails(e["tail"])
-                for st in e["stmts"]:
-                    for x in thir.walk(st):
-                        if x.get("k") == "Return" and "e" in x:
-                            rets.append(x["e"])
-            elif k == "If":
-                tails(e["then"]); "else" in e and tails(e["else"])
-            elif k == "Match":
-                for a in e["arms"]:
-                    tails(a["body"])
-            elif k == "Loop":
-                for x in thir.walk(e):
-                    if x.get("k") == "Return" and "e" in x:
-                        rets.append(x["e"])
-                    if x.get("k") == "Break" and "e" in x:
-                        rets.append(x["e"])
-            else:
-                rets.append(e)
-        tails(body)
-        n = 0
-        for r in rets:
-            if r.get("k") == "Call" and r.get("fname") == "generate_identifier":
-                continue  # recursion
-            n += 1
-            srcs = [y.get("fname") for y in fa.source_calls(r)]
-            from_pool = "pop" in srcs and "next" not in srcs
-            filtered = any(k == "then" and M.mentions(fa, cond, guards.is_call_named("filter_identifier"), 0) and cond.get("k") != "Unary" for cond, k in guards.conditions_of(fa, r))
-            R.ob(rid, "generate_identifier|result@%d" % n, from_pool or filtered, ctx.where(fn, r.get("ln")),
-                 "returned name %s" % ("comes from the reuse pool" if from_pool else "passed filter_identifier" if filtered else "is neither pooled nor filtered"))
-        R.require(rid, "generate_identifier|floor", n >= 1, ctx.where(fn), "%d result expressions" % n)
-    fn = lib.fn("rules::rename_variables::rename_processor::RenameProcessor::filter_identifier")
-    if R.require(rid, "anchor:filter_identifier", fn is not None, "", "not found"):
-        b = thir.body_of(fn)
-        calls_ = [c.get("fname") for c in thir.walk(b) if c.get("k") == "Call"]
-        fa = ctx.an.fa(fn["path"])
-        contains = [c for c in thir.walk(b) if c.get("k") == "Call" and c.get("fname") == "contains" and any(o[1] == "avoid_identifier" for o in fa.origins(c["args"][0]) if o[0] != "#param")]
-        R.ob(rid, "filter_identifier|avoid-set", bool(contains), ctx.where(fn), "consults avoid_identifier.contains: %s" % bool(contains))
-        R.ob(rid, "filter_identifier|no-leading-digit", "is_ascii_digit" in calls_, ctx.where(fn), "refuses names starting with a digit")
     # KEYWORDS
     kw = lib.consts.get("process::utils::KEYWORDS")
     if R.require(rid, "anchor:KEYWORDS", kw is not None and kw.get("thir"), "", "not found"):
@@ -255,8 +204,19 @@ def fresh(R, ctx):
             R.ob(rid, "matches_any_keyword|" + k, k in strs, ctx.where(fn), "`%s` %s by is_valid_identifier" % (k, "rejected" if k in strs else "NOT rejected"))
     fn = lib.fn("rules::rename_variables::rename_processor::RenameProcessor::new")
     if R.require(rid, "anchor:RenameProcessor::new", fn is not None, "", "not found"):
-        ok = any(x.get("k") in ("Const", "Static") and x.get("def", "").endswith("KEYWORDS") for x in thir.walk(thir.body_of(fn)))
-        R.ob(rid, "new|keywords-avoided", ok, ctx.where(fn), "KEYWORDS added to avoid_identifier: %s" % ok)
+        from .. import peval
+        roles = _rp_layout(lib)
+        pe = peval.PEval(lib, ctx.an)
+        try:
+            rp = pe.call_fn(fn, [["configured_global"], False])
+        except peval.OutOfFuel:
+            rp = None
+        av = rp.fields.get(roles.get("avoid")) if isinstance(rp, peval.Struct) else None
+        names = set(av.d) if isinstance(av, peval.PySet) else None
+        missing = sorted((set(LUA_KEYWORDS) | {"configured_global"}) - names) if names is not None else None
+        R.ob(rid, "new|keywords-avoided", missing == [], ctx.where(fn),
+             "RenameProcessor::new seeds the avoid set with the 21 reserved words and the names it is given" if missing == [] else
+             ("avoid set misses %s" % missing if missing is not None else "avoid set not established (%s)" % pe.unknown_reasons[:2]))
     fn = lib.fn("<rules::rename_variables::RenameVariables as rules::FlawlessRule>::flawless_process")
     if R.require(rid, "anchor:flawless_process", fn is not None, "", "not found"):
         fa = ctx.an.fa(fn["path"])
@@ -276,37 +236,167 @@ def fresh(R, ctx):
             R.ob(rid, "flawless_process|collect-before-rename", ok, ctx.where(fn), "collecting walks < RenameProcessor::new < renaming walk: %s" % ok)
 
 
-def pool(R, ctx):
-    rid = "C09.pool"
+RP = "rules::rename_variables::rename_processor::RenameProcessor"
+SCOPE_IMPL = "<%s as process::scope_visitor::Scope>::" % RP
+
+
+def _rp_layout(lib):
+    """Roles of RenameProcessor's fields, found by type (private names may change)."""
+    a = lib.adts.get(RP)
+    roles = {}
+    for f in (a["variants"][0]["fields"] if a else []):
+        t = f.get("tys", "")
+        if t.startswith("alloc::vec::Vec<") and any(m in t for m in ("::map::HashMap<alloc::string::String,", "::map::BTreeMap<alloc::string::String,", "IndexMap<alloc::string::String,")):
+            roles["stack"] = f["name"]
+            roles["value_ty"] = t.split("<alloc::string::String, ", 1)[1].rstrip(">").strip()
+            if roles["value_ty"].startswith("("):
+                roles["value_ty"] = roles["value_ty"] + ("" if roles["value_ty"].endswith(")") else ")")
+        elif t == "alloc::vec::Vec<alloc::string::String>" or t.startswith("alloc::collections::vec_deque::VecDeque<alloc::string::String"):
+            roles["pool"] = f["name"]
+        elif "Set<alloc::string::String" in t:
+            roles["avoid"] = f["name"]
+        elif t == "bool":
+            roles["include"] = f["name"]
+        else:
+            roles.setdefault("permutator", f["name"])
+    return roles
+
+
+def _rp_value(lib, roles, name, flag):
+    from ..peval import Struct
+    vt = roles.get("value_ty", "")
+    if vt.startswith("("):
+        return (name, flag)
+    a = lib.adts.get(vt.split("<")[0])
+    fields = {}
+    for f in (a["variants"][0]["fields"] if a else []):
+        fields[f["name"]] = name if "String" in f.get("tys", "") else (flag if f.get("tys") == "bool" else None)
+    return Struct(vt.split("<")[0], fields)
+
+
+def _rp_unvalue(v):
+    from ..peval import Struct
+    if isinstance(v, tuple) and len(v) == 2:
+        return v
+    if isinstance(v, Struct):
+        names = [x for x in v.fields.values() if isinstance(x, str)]
+        flags = [x for x in v.fields.values() if isinstance(x, bool)]
+        if len(names) == 1 and len(flags) == 1:
+            return (names[0], flags[0])
+    return None
+
+
+def pool(R, ctx, rid_override=None, only=None):
+    """The renamer's scope callbacks as single-step transfer functions on an abstract RenameProcessor (sa/peval.py).
+    With `only`, records just those obligations under `rid_override` (C11.order reuses the order-independence cell)."""
+    import itertools
+    from .. import peval
+    from ..peval import Enum, Struct, UNKNOWN, PyMap, PySet, Iter, Ref, make
+    rid = rid_override or "C09.pool"
     lib = ctx.lib
-    R.rule(rid, "<RenameProcessor as Scope>::pop admits a released name to reuse_identifiers only under the entry's `reuse` flag; insert_self and kept "
-                "function names are added with reuse = false; replace_identifier adds with reuse = true")
-    fn = lib.fn("<rules::rename_variables::rename_processor::RenameProcessor as process::scope_visitor::Scope>::pop")
+    if only:
+        real_R = R
+
+        class _Filter:
+            def __getattr__(self, n):
+                return getattr(real_R, n)
+
+            def rule(self, *a):
+                pass
+
+            def ob(self, rule, key, ok, where="", detail="", nontrivial=True):
+                if key in only:
+                    return real_R.ob(rule, key, ok, where, detail, nontrivial)
+                return ok
+
+            def require(self, rule, key, cond, where="", detail=""):
+                return real_R.require(rule, key, cond, where, detail) if not cond else cond
+        R = _Filter()
+    R.rule(rid, "RenameProcessor's Scope callbacks, evaluated from their typed tree on an abstract processor (fields found by type): pop() "
+                "releases exactly the names whose entry carries the reuse flag -- names kept as they are (`self`, function names) never enter "
+                "the pool -- and leaves the pool in an order that does not depend on the hash map's iteration order (all 24 insertion orders "
+                "give the same pool); insert_self and a kept function name are recorded with reuse = false; insert() records the new name "
+                "with reuse = true, takes it from the pool when there is one, and otherwise takes the first generated candidate that is "
+                "neither in the avoid set nor starts with a digit")
+    roles = _rp_layout(lib)
+    if not R.require(rid, "anchor:layout", {"stack", "pool", "avoid", "include", "permutator", "value_ty"} <= set(roles), ctx.adt_where(RP) if RP in lib.adts else "",
+                     "field roles of RenameProcessor: %s" % roles):
+        return
+
+    def processor(dicts, pool_, avoid, stream, include=False):
+        return Struct(RP, {roles["stack"]: [PyMap(d) for d in dicts], roles["pool"]: list(pool_), roles["avoid"]: PySet(avoid),
+                           roles["permutator"]: Iter(list(stream)), roles["include"]: include})
+
+    def call(name, rp, *args):
+        fn = lib.fn(SCOPE_IMPL + name)
+        if fn is None:
+            return None, ["%s not found" % name]
+        pe = peval.PEval(lib, ctx.an)
+        try:
+            pe.call_fn(fn, [rp] + list(args))
+        except peval.OutOfFuel:
+            return None, ["no termination"]
+        return fn, pe.unknown_reasons
+    # ---- pop ---------------------------------------------------------------------------------------
+    entries = [("x", "b", True), ("self", "self", False), ("y", "a", True), ("f", "f", False)]
+    pools = set()
+    fn = lib.fn(SCOPE_IMPL + "pop")
     if R.require(rid, "anchor:pop", fn is not None, "", "not found"):
-        fa = ctx.an.fa(fn["path"])
-        ext = [c for c in thir.calls(fn) if c.get("fname") in ("extend", "push") and any(o[1] == "reuse_identifiers" for o in fa.origins(c["args"][0]) if o[0] != "#param")]
-        R.require(rid, "pop|anchor:extend", len(ext) >= 1, ctx.where(fn), "no addition to reuse_identifiers")
-        for c in ext:
-            # the chain feeding the pool must contain a closure that binds and uses the flag (tuple element 1)
-            uses_flag = False
-            for clo in [x for x in thir.walk(c["args"][1]) if x.get("k") == "Closure" and x.get("body")]:
-                for p in clo["body"].get("params", []):
-                    if "pat" not in p:
-                        continue
-                    binds = list(thir.pat_bindings(p["pat"]))
-                    flag_vars = {b[0] for b in binds if b[3] is not None and lib.ty_str(b[3]) == "bool"}
-                    used = {x["var"] for x in thir.walk(clo["body"]["body"]) if x.get("k") == "Var"}
-                    if flag_vars & used:
-                        uses_flag = True
-            R.ob(rid, "pop|pool-admission-tests-reuse-flag", uses_flag, ctx.where(fn, c.get("ln")),
-                 "released names are %s" % ("filtered by their reuse flag" if uses_flag else "all recycled, including names kept as they are (`self`, function names): a later local can be renamed to `self`"))
-    for path, want in (("<rules::rename_variables::rename_processor::RenameProcessor as process::scope_visitor::Scope>::insert_self", "false"),
-                       ("rules::rename_variables::rename_processor::RenameProcessor::replace_identifier", "true")):
-        fn = lib.fn(path)
-        if R.require(rid, "anchor:" + path.split("::")[-1], fn is not None, "", "not found"):
-            adds = [c for c in thir.calls(fn) if c.get("fname") == "add"]
-            ok = bool(adds) and all(c["args"][-1].get("k") == "Lit" and c["args"][-1].get("v") == want for c in adds)
-            R.ob(rid, "%s|reuse=%s" % (path.split("::")[-1], want), ok, ctx.where(fn), "add(.., .., %s): %s" % (want, ok))
+        problems = []
+        for perm in itertools.permutations(entries):
+            rp = processor([[("outer", _rp_value(lib, roles, "o", True))], [(k, _rp_value(lib, roles, n, fl)) for k, n, fl in perm]], ["p"], [], [])
+            _, why = call("pop", rp)
+            got = rp.fields[roles["pool"]]
+            got = got.rest() if isinstance(got, Iter) else got
+            if not isinstance(got, list) or any(not isinstance(x, str) for x in got):
+                problems.append("pool not established %s" % why[:1])
+                break
+            pools.add(tuple(got))
+            if sorted(got) != ["a", "b", "p"]:
+                problems.append("pool after pop is %s (expected p, a, b: exactly the reusable names are released)" % got)
+                break
+            if len(rp.fields[roles["stack"]]) != 1:
+                problems.append("the scope dictionary was not popped")
+                break
+        R.ob(rid, "pop|pool-admission-tests-reuse-flag", not problems, ctx.where(fn),
+             "exactly the names flagged reusable are released" if not problems else problems[0] + ": a later local can be renamed to `self`" * ("self" in problems[0]))
+        R.ob(rid, "pop|sorted-after-extend", len(pools) <= 1, ctx.where(fn),
+             "the pool is the same for all 24 iteration orders of the scope's map" if len(pools) <= 1 else "the pool depends on hash iteration order: %s" % sorted(pools)[:3])
+    # ---- insert_self / kept function ------------------------------------------------------------------
+    fn = lib.fn(SCOPE_IMPL + "insert_self")
+    if R.require(rid, "anchor:insert_self", fn is not None, "", "not found"):
+        rp = processor([[]], [], [], [])
+        _, why = call("insert_self", rp)
+        top = rp.fields[roles["stack"]][-1] if rp.fields[roles["stack"]] else None
+        v = _rp_unvalue(top.d.get("self")) if isinstance(top, PyMap) else None
+        R.ob(rid, "insert_self|reuse=false", v == ("self", False), ctx.where(fn), "`self` recorded as %s %s" % (v, why[:1] if v is None else ""))
+    fn = lib.fn(SCOPE_IMPL + "insert_local_function")
+    if R.require(rid, "anchor:insert_local_function", fn is not None, "", "not found"):
+        st = lib.adts.get("nodes::statements::Statement")
+        lf = [f["tys"] for v in (st["variants"] if st else []) if v["name"] == "LocalFunction" for f in v["fields"]]
+        LF = lf[0] if lf else ""
+        while LF.startswith("alloc::boxed::Box<"):
+            LF = LF[len("alloc::boxed::Box<"):-1]
+        ID = "nodes::identifier::Identifier"
+        func = make(lib, LF, {"identifier": make(lib, ID, {"name": "f"})})
+        rp = processor([[]], [], [], [], include=False)
+        _, why = call("insert_local_function", rp, func)
+        top = rp.fields[roles["stack"]][-1] if rp.fields[roles["stack"]] else None
+        v = _rp_unvalue(top.d.get("f")) if isinstance(top, PyMap) else None
+        R.ob(rid, "insert_local_function|kept-name-reuse=false", v == ("f", False), ctx.where(fn), "kept function name recorded as %s %s" % (v, why[:1] if v is None else ""))
+    # ---- insert ---------------------------------------------------------------------------------------
+    fn = lib.fn(SCOPE_IMPL + "insert")
+    if R.require(rid, "anchor:insert", fn is not None, "", "not found"):
+        for label, pool_, avoid, stream, want in (("from-pool", ["q"], [], ["zz"], "q"),
+                                                  ("generated-filtered", [], ["taken", "if"], ["1x", "if", "taken", "ok", "zz"], "ok")):
+            cell = {"v": "orig"}
+            rp = processor([[]], pool_, avoid, stream)
+            _, why = call("insert", rp, Ref(cell, "v"))
+            top = rp.fields[roles["stack"]][-1] if rp.fields[roles["stack"]] else None
+            rec = _rp_unvalue(top.d.get("orig")) if isinstance(top, PyMap) else None
+            ok = cell["v"] == want and rec == (want, True)
+            R.ob(rid, "insert|%s" % label, ok, ctx.where(fn),
+                 "declaration renamed to `%s`, recorded as %s (expected `%s`, reusable) %s" % (cell["v"], rec, want, why[:1] if not ok else ""))
 
 
 def run(R, ctx):
